@@ -262,3 +262,61 @@ contract(IP + '_introspectable_pass3', params={'self': 'IntrospectablePass', 'ob
          note='the field clauses are stated for records and unions (for classes and interfaces the signal analysis that follows '
               'may close further elements; the loop invariants hold for all four kinds); a field without an anonymous node has '
               'a type (data invariant of ast.Field, assumed)')
+
+
+# ---- properties: an unbindable type closes the property and its accessors; methods stop naming closed properties --------------
+PR = 'obj.properties'
+ME = 'obj.methods'
+IS_OBJ = "isinstance(obj, (ast.Class, ast.Interface))"
+
+
+def closed_named(p, name):
+    return p.name == name and not p.introspectable
+
+
+contract(IP + '_introspectable_property_analysis', params={'self': 'IntrospectablePass', 'obj': 'Node', 'stack': 'any'},
+         returns='bool', ghost={'K': 'int', 'M': 'int'}, props=('C05',),
+         requires=['implies(%s, all_distinct(obj.methods) and all_distinct(obj.properties))' % IS_OBJ],
+         modifies=['*.introspectable', '*.setter', '*.getter', '*.set_property', '*.get_property'],
+         raises={'KeyError': 'True'},
+         loops={
+             1: {'index': 'I1', 'modifies': ['*.introspectable', '*.setter', '*.getter'], 'var_types': {'prop': 'Property'},
+                 'invariant': [
+                     "implies(0 <= K and K < I1 and shallow(%s[K].type) and not TI(self, %s[K].type), not %s[K].introspectable and "
+                     "%s[K].setter is None and %s[K].getter is None)" % (PR, PR, PR, PR, PR),
+                     "implies(0 <= K and K < len(%s) and not old(%s[K].introspectable), not %s[K].introspectable)" % (PR, PR, PR)]},
+             2: {'index': 'I2', 'modifies': ['*.set_property', '*.get_property'], 'var_types': {'method': 'Function'},
+                 'invariant': [
+                     "implies(0 <= M and M < I2 and 0 <= K and K < len(%s) and old(%s[M].set_property) is not None and "
+                     "closed_named(%s[K], old(%s[M].set_property)), %s[M].set_property is None)" % (PR, ME, PR, ME, ME),
+                     "implies(0 <= M and M < I2 and 0 <= K and K < len(%s) and old(%s[M].get_property) is not None and "
+                     "closed_named(%s[K], old(%s[M].get_property)), %s[M].get_property is None)" % (PR, ME, PR, ME, ME),
+                     "implies(0 <= M and M < len(%s), (%s[M].set_property is None or %s[M].set_property == old(%s[M].set_property)) and "
+                     "(%s[M].get_property is None or %s[M].get_property == old(%s[M].get_property)))" % (ME, ME, ME, ME, ME, ME, ME),
+                     "implies(0 <= M and I2 <= M and M < len(%s), %s[M].set_property == old(%s[M].set_property) and "
+                     "%s[M].get_property == old(%s[M].get_property))" % (ME, ME, ME, ME, ME)]},
+             3: {'index': 'I3', 'modifies': ['method.set_property'], 'var_types': {'prop': 'Property'},
+                 'invariant': ["implies(0 <= K and K < I3, not closed_named(%s[K], set_property))" % PR,
+                               "method.set_property == set_property"],
+                 'post': ["implies(0 <= K and K < len(%s) and closed_named(%s[K], set_property), method.set_property is None)" % (PR, PR),
+                          "method.set_property is None or method.set_property == set_property"]},
+             4: {'index': 'I4', 'modifies': ['method.get_property'], 'var_types': {'prop': 'Property'},
+                 'invariant': ["implies(0 <= K and K < I4, not closed_named(%s[K], get_property))" % PR,
+                               "method.get_property == get_property"],
+                 'post': ["implies(0 <= K and K < len(%s) and closed_named(%s[K], get_property), method.get_property is None)" % (PR, PR),
+                          "method.get_property is None or method.get_property == get_property"]},
+         },
+         ensures={
+             'C05.property.skipped_nodes_are_not_walked': 'implies(old(obj.skip), result == False)',
+             'C05.property.unbindable_type_closes_the_property_and_its_accessors':
+                 "implies(not old(obj.skip) and %s and 0 <= K and K < len(%s) and shallow(%s[K].type) and not TI(self, %s[K].type), "
+                 "not %s[K].introspectable and %s[K].setter is None and %s[K].getter is None)" % (IS_OBJ, PR, PR, PR, PR, PR, PR),
+             'C05.property.monotone': "implies(not old(obj.skip) and %s and 0 <= K and K < len(%s) and not old(%s[K].introspectable), "
+                                      "not %s[K].introspectable)" % (IS_OBJ, PR, PR, PR),
+             'C05.property.no_method_keeps_naming_a_closed_property':
+                 "implies(not old(obj.skip) and %s and 0 <= M and M < len(%s) and 0 <= K and K < len(%s), "
+                 "not (%s[M].set_property is not None and closed_named(%s[K], %s[M].set_property)) and "
+                 "not (%s[M].get_property is not None and closed_named(%s[K], %s[M].get_property)))"
+                 % (IS_OBJ, ME, PR, ME, PR, ME, ME, PR, ME),
+         },
+         note='methods and properties of a class are pairwise distinct objects (precondition)')
